@@ -26,6 +26,7 @@ def _single_return_expr(f):
     return rets[0]['e']
 
 
+INT_W = {'unsigned long': 64, 'unsigned int': 32, 'unsigned short': 16, 'unsigned char': 8, 'long': 64, 'int': 32, 'unsigned long long': 64, 'std::uint64_t': 64, 'std::uint32_t': 32}
 REPS = [0, 1, 2, 3, 4, 5, 6, 7, 8, 10, 12, 0x100, 0x101, 0x102, 0x103, 0xFFFFFFFFFFFFFFFC, 0xFFFFFFFFFFFFFFFD, 0xFFFFFFFFFFFFFFFE, 0xFFFFFFFFFFFFFFFF]
 
 
@@ -408,6 +409,25 @@ def lw(cfg):
         res.ob(ok, {'rule': 'LW-4', 'record': sh(r['name'])[:100], 'fields': [sh(f_['t'])[:60] for f_ in flds], 'verdict': 'discharged' if ok else 'VIOLATION'} if len(res.samples) < 60 else None)
         if not ok:
             res.find(r['name'], r.get('loc'), 'in_critical_section<T> does not hold its value in a std::atomic: concurrent optimistic reads would be data races', key='LW-4:ics-atomic', config=cfg.name)
+    # LW-10: a version tag keeps all its 64 bits on its way rcs.get() -> iterator stack entry -> rehydrate_read_lock -> section
+    carriers = []
+    for f in _fn(cfg, OL, 'rehydrate_read_lock'):
+        if f.params:
+            carriers.append(('parameter of optimistic_lock::rehydrate_read_lock', f.params[0].get('w'), f, f.loc))
+    for f in _fn(cfg, RCS, 'get'):
+        carriers.append(('result of read_critical_section::get', INT_W.get((f.ret or '').replace('const ', '').strip()), f, f.loc))
+    for n_, r_ in cfg.records.items():
+        if n_ == VT or ('olc_db<' in n_ and n_.endswith('::iterator::stack_entry')):
+            for fl in r_.get('fields', []):
+                if fl.get('name') == 'version':
+                    carriers.append(('field %s::version' % sh(n_)[-60:], fl.get('w'), n_, r_.get('loc')))
+    res.count('version-tag carriers', len(carriers))
+    for what, w_, where, loc in carriers:
+        ok = w_ == 64
+        res.ob(ok, {'rule': 'LW-10', 'carrier': what, 'width': w_, 'verdict': 'discharged' if ok else 'VIOLATION'})
+        if not ok:
+            res.find(where, loc, 'the %s is %s bits wide: a saved version tag loses its upper bits, so once a lock word has passed 2^%s (2^%s write cycles of one node) the section rebuilt from the tag never validates again - the iterator re-seeks and fails for ever: every scan across that node hangs although nobody holds a lock' % (what, w_, w_, (w_ or 2) - 2), key='LW-10:' + what[:40], config=cfg.name)
+    res.floor('version-tag carriers', 4)
     res.floor('in_critical_section instantiations', 4)
     res.floor('LW-2 value functions', 4)
     res.floor('LW-3 sites', 2)
